@@ -1,13 +1,14 @@
 //! This module contains the definition of the type checker state and other
 //! supporting types.
 
-use std::{
-    array,
-    collections::{HashMap, HashSet},
-};
+use std::array;
+#[cfg(not(smlxl_storage_layout_extractor_verif))]
+use std::collections::{HashMap, HashSet};
 
 use type_variable::{TypeVariable, TypeVariableSource};
 
+#[cfg(smlxl_storage_layout_extractor_verif)]
+use crate::verif::collections::{HashMap, HashSet};
 use crate::{
     tc::{
         expression::{InferenceSet, TypeExpression, TE},
